@@ -274,7 +274,7 @@ fn single_results<T: Real + Elem>(pl: &Planned<T>, x: &[Complex<T>], n: usize) -
         let mut buf = c.to_vec();
         let mut s = vec![czero::<T>(); pl.adv[0]];
         let f = pl.fft.clone();
-        let r = std::panic::catch_unwind(std::panic::AssertUnwindSafe(|| f.process_with_scratch(&mut buf, &mut s)));
+        let r = crate::calls::lib_catch((|| f.process_with_scratch(&mut buf, &mut s)));
         if r.is_err() {
             return None;
         }
